@@ -75,6 +75,7 @@ package cty
 //@   requires typed: (vals_typed vals (Slice.len vals))
 //@   requires consistent: (vals_consistent vals (Slice.len vals))
 //@   ensures (and (is_set_ty (vty result)) (wf_ty (vty result)) (wf_marks result) (is_known result) (not (is_null result)))
+//@   ensures (=> (forall ((j Int)) (! (=> (and (trig j) (<= 0 j) (< j (Slice.len vals))) (not (deep_marked (vals_rel vals j)))) :pattern ((trig j)))) (not (is_marked result)))
 //@   ensures (or (and (is_dyn_ty (elem_ty (vty result))) (vals_all_dyn vals (Slice.len vals))) (and (not (is_dyn_ty (elem_ty (vty result)))) (vals_some_ty vals (Slice.len vals) (elem_ty (vty result)))))
 //
 //@ func cty.MapVal
